@@ -1,6 +1,14 @@
 from common import COMMON_TRUST
 from wt_common import WT_LEAN, WT_TRUST, wt_engine, e2e_engine, E2E_TRUST
 
+# The lane/store failure rig (`sv-lanefail` / monitor `lanefail`): the REAL runtime runs a harness-implemented agent whose
+# lanes and stores break their output channel on scripted steps (bad tag, garbage, bad map operation, truncated frame,
+# dropped channel) while other lanes keep working; closes the gap `lane output -> ResponseReceiver -> Failed::{Lane,
+# Store} -> WriteTaskEvent` that `wt` (injects laneFailed into WriteTaskState) and `e2e` (no lane ever fails) leave.
+LANEFAIL = {"name": "lanefail", "crate": "core", "bin": "sv-lanefail", "machine": "lanefail", "modes": ["monitor"],
+            "reasons": r"lanefail-.*", "cases": {"quick": 6000, "thorough": 600000}, "min_shard": 1000,
+            "nontrivial_min_ops": 6, "timeout": 3000}
+
 PROP = {
     "generated": [],
     "lean_modules": WT_LEAN + ["SwimVerif.Model.LinksSys", "SwimVerif.Proofs.Links", "SwimVerif.Proofs.LinksTotal",
@@ -8,9 +16,10 @@ PROP = {
                                "SwimVerif.Proofs.LinkLangUplinks", "SwimVerif.Proofs.LinkLangRemote",
                                "SwimVerif.Proofs.LinkLangFlow", "SwimVerif.Proofs.LinkLangLinks",
                                "SwimVerif.Proofs.LinkLangState", "SwimVerif.Proofs.LinkLangGInv",
-                               "SwimVerif.Proofs.LinkLangDone", "SwimVerif.Proofs.LinkLangStop"],
+                               "SwimVerif.Proofs.LinkLangDone", "SwimVerif.Proofs.LinkLangStop",
+                               "SwimVerif.Model.LaneFail"],
     "engines": [
-        e2e_engine("C04"),wt_engine("C04")],
+        e2e_engine("C04"), wt_engine("C04"), LANEFAIL],
     "level_text": "Proof: for every registry and every interleaving of lane events, link/unlink/lane-not-found "
                   "messages and write completions on one remote's Uplinks queue: no event body is ever sent (or "
                   "buffered) that was not pushed for that lane (no fabrication), at most one write is in flight, "
